@@ -102,7 +102,7 @@ def tucker_als(  # noqa: PLR0912, PLR0913, PLR0915
             raise ValueError("Dimorder must be a permutation of range(tensor.ndims)")
 
     if isinstance(init, list):
-        Uinit = init
+        Uinit = [None if u is None else u.copy() for u in init]
         if len(init) != N:
             raise ValueError(
                 f"Init needs to be of length tensor.ndim (which was {N}) but only got "
